@@ -54,7 +54,11 @@ class Ref:
             d = gs.dist(self.q, p)
             return d, self._status(d, self.band_node, None)
         d2 = g2.d2_exact(g2.fr(self.q), g2.fr(p))
-        return g2.sqrt_fr(d2), self._status(g2.sqrt_fr(d2), self.band_node, d2)
+        # an element exactly on the circle must be excluded, but that is only decidable where the package's own float
+        # computation is exact: a node straight along an axis (sqrt(fl(r*r)) == r); anywhere else rounding may land on
+        # either side and the element is "don't care"
+        axis = (self.q[0] == p[0]) or (self.q[1] == p[1])
+        return g2.sqrt_fr(d2), self._status(g2.sqrt_fr(d2), self.band_node, d2, exact_ok=axis)
 
     def edge_dist(self, a, b):
         pa, pb = self.loc[a], self.loc[b]
@@ -65,15 +69,17 @@ class Ref:
             return d, self._status(d, band, None), band
         d2 = g2.pt_seg_d2_exact(g2.fr(self.q), g2.fr(pa), g2.fr(pb))
         d = g2.sqrt_fr(d2)
-        return d, self._status(d, self.band_node, d2), self.tol_node
+        return d, self._status(d, self.band_node, d2, exact_ok=False), self.tol_node
 
-    def _status(self, d, band, d2):
+    def _status(self, d, band, d2, exact_ok=False):
         r = self.r
         if math.isinf(r):
             return "in"
         if d2 is not None:
             r2 = F(r) ** 2
             if d2 == r2:
+                if not exact_ok:
+                    return "dontcare"  # (the projected point s1 + t (s2 - s1) is itself rounded)
                 self.exact_nodes += 1
                 return "out"  # exactly on the circle: not below the radius
             if abs(d - r) <= band:
